@@ -542,7 +542,7 @@ func (c *Chain) finalizeBlock(ctx context.Context, fb *block.Block, bsh BlockSta
 
 	c.rebaseState(fb)
 	fr.Finalize(fb)
-	for pfb := fb; pfb != nil && pfb != c.LatestDeterministicBlock; pfb = pfb.PrevBlock {
+	for pfb := fb; pfb != nil && pfb != c.GetLatestDeterministicBlock(); pfb = pfb.PrevBlock {
 		if c.IsFinalizedDeterministically(pfb) {
 			c.SetLatestDeterministicBlock(pfb)
 			break
